@@ -59,7 +59,7 @@ func coordinator() {
 	r.Assume(
 		"Linux /proc/<pid>/stat (state, ppid, pgrp, session, starttime) and /proc/<pid>/status (SigPnd/ShdPnd) are truthful; identity of a process is (pid, starttime)",
 		"PR_SET_CHILD_SUBREAPER re-parents every orphan of the tree to the harness, so a process of the tree that never registered is still found by ancestry",
-		"a process is 'still in the child's process group' when it is a descendant of the harness in the harness' session and outside the harness' own group; setsid()'ed nodes and their children are exempt and never hold the pipes",
+		"the nodes of a tree never change their process group except through setsid(): a process is 'still in the child's process group' when it is a descendant of the harness that is still in the harness' session; setsid()'ed nodes and their children are exempt and never hold the pipes",
 		"Stop()/Restart() during Execute or on a supervised Subprocess are outside the documented use ('should be used in combination with Start') and are not exercised",
 		"a stop request that finds the call already returned (command ended by itself) demands nothing",
 		"wall-clock bounds (G=15 s, 2 s causal window, 5 s for signalled processes to die) only select which structural witness is looked for; exceeding one without witness is inconclusive",
@@ -186,6 +186,20 @@ func sweep(needle string) int {
 
 var dumpMu sync.Mutex
 
+func instantClass(cs caseSpec) string {
+	switch {
+	case cs.Anchor == "create":
+		return fmt.Sprintf("deadline %d ms after context creation", cs.DelayMs)
+	case cs.Anchor == "call":
+		return fmt.Sprintf("%d ms after the call", cs.DelayMs)
+	case cs.DelayMs == 0:
+		return "at readiness"
+	case cs.DelayMs <= 50:
+		return "10..50 ms after readiness"
+	}
+	return "51..200 ms after readiness"
+}
+
 func summarize(s []survivor) string {
 	parts := []string{}
 	for _, x := range s {
@@ -254,7 +268,7 @@ func judge(r *vrun.Run, cs caseSpec, res *result) {
 	r.ObsSet("start_x_stop", cs.Start+" x "+cs.Stop)
 	r.ObsSet("shape_class", cs.ShapeClass)
 	r.ObsSet("phase_at_stop", res.Phase)
-	r.ObsSet("instant", fmt.Sprintf("%s+%dms", cs.Anchor, cs.DelayMs))
+	r.ObsSet("instant", instantClass(cs))
 	r.ObsSet("awaited", res.Awaited)
 	if nontrivial {
 		r.Obs("cases_tree_alive_at_stop", 1)
